@@ -623,7 +623,9 @@ impl RawAutomaton {
                 automaton.transitions.len(),
                 nb_states,
             );
-            if automaton.nothing_after_final() {
+            if automaton.nothing_after_final()
+                && !automaton.final_states.contains(&automaton.initial_state)
+            {
                 // In this branch, an optimisation can be done to save one state and one
                 // transition (redirect transitions pointing to the final states of `automaton`
                 // towards `concat_automaton.initial_state`).
